@@ -83,7 +83,10 @@ def run(ctx):
     ctx.rule = ('six scenarios x seeded schedules: 3 threads creating BeartypeConf objects (two fresh keyword sets), 3 threads wrapping fresh '
                 'hashable hints in TypeHint, 3 threads registering packages, 3 threads calling is_bearable on one fresh hint, 3 threads '
                 'decorating functions sharing fresh hints, 2 threads calling a @callable_cached probe returning a fresh object; the '
-                'scheduler switches threads at line granularity inside 10 beartype source files; non-trivial = >= 8 context switches; '
+                'scheduler switches threads at line granularity inside 11 beartype source files; in addition, for the decorate and '
+                'check scenarios, every single-preemption schedule around the object pools: thread 0 parked before each line it executes '
+                'in calldatadecorfunc.py / utilcachepool.py / the acquire-release neighbourhoods of codemain.py, thread 1 run for a '
+                'quarter, half, three quarters of its pool-file steps, thread 0 to its end, the rest to theirs; non-trivial = >= 8 context switches; '
                 'distinct = distinct (scenario, schedule seed)')
     ctx.assumptions += ['line granularity inside the listed files (not bytecode granularity, not inside C code); the GIL is not modelled',
                         'the model has one lock-protected table; the three real tables are separate instances of it',
@@ -98,11 +101,17 @@ def run(ctx):
     ctx.extra['lock_disciplines'] = disc
     n = {'quick': 40, 'thorough': 1500}[ctx.tier]
     cases = [{'scenario': s, 'seed': ctx.rng.getrandbits(30)} for s in SCENARIOS for _ in range(n)]
+    # systematic single-preemption schedules around the object pools (KeyPool / typed pools): see c15_impl.directed
+    nd = {'quick': 1, 'thorough': 8}[ctx.tier]
+    cases += [{'scenario': s, 'seed': ctx.rng.getrandbits(20), 'mode': 'directed'} for s in ('decorate', 'check') for _ in range(nd)]
     distinct_seen = 0
     for lo in range(0, len(cases), 120):
         part = cases[lo:lo + 120]
         obs = run_impl('c15_impl.py', {'cases': part}, timeout=1800)
         for case, o in zip(part, obs):
+            if case.get('mode') == 'directed':
+                ctx.evaluations += max(0, o.get('schedules', 1) - 1)
+                ctx.count('directed_schedules', o.get('schedules', 0))
             ctx.case(case, o['switches'] >= 8, sample={'case': case, 'steps': o['steps'], 'switches': o['switches'], 'outcomes': o['outcomes']})
             ctx.count('scenario:' + case['scenario'])
             if case['scenario'] == 'unlocked_probe':
@@ -110,7 +119,7 @@ def run(ctx):
             probs = list(o['problems']) + (['a thread raised: ' + o['exceptions'][0]] if o['exceptions'] else [])
             for pr in probs[:1]:
                 failures += 1
-                ctx.report({'clause': 'thread_safety', 'scenario': case['scenario'], 'problem': pr[:50]},
+                ctx.report({'clause': 'thread_safety', 'scenario': case['scenario'], 'problem': pr.split(' [thread 0 parked')[0][:50]},
                            {'case': case, 'observed': o}, pr)
     ctx.extra['unlocked_probe_schedules_with_distinct_objects'] = distinct_seen
     # the disciplines the model assumes
